@@ -27,9 +27,9 @@ Definition expr_step (pe : PE) (ps : PS) (pa : PA) (ni : bool) (L : Z) (ts : lis
       end
     else match prefix_op t with
     | Some o =>
-        if S_New <=? L then None
-        else match pe false S_Unary r with
-        | Some (v, r') => if negb (is_update o) || is_target v then ps ni L (EUn o v) S_Unary r' else None
+        if pre_max o <? L then None
+        else match pe (pre_in o ni) (pre_arg o) r with
+        | Some (v, r') => if negb (is_update o) || is_target v then ps ni L (EUn o v) (spec_level o) r' else None
         | None => None
         end
     | None =>
@@ -144,8 +144,8 @@ Proof.
     destruct (is_open p); [|apply Hs; exact H].
     destruct (pa r'') as [[a r3]|] eqn:E2; [|discriminate]. rewrite (Ha _ _ E2). apply Hs. exact H. }
   destruct (prefix_op t).
-  - destruct (S_New <=? L); [discriminate|].
-    destruct (pe false S_Unary r0) as [[v r']|] eqn:E; [|discriminate]. rewrite (He _ _ _ _ E).
+  - destruct (pre_max o <? L); [discriminate|].
+    destruct (pe (pre_in o ni) (pre_arg o) r0) as [[v r']|] eqn:E; [|discriminate]. rewrite (He _ _ _ _ E).
     destruct (negb (is_update o) || is_target v); [|discriminate]. apply Hs. exact H.
   - destruct (atom_of t); [apply Hs; exact H|].
     destruct (is_open t); [|discriminate].
